@@ -120,11 +120,7 @@ struct M {
     return s;
   }
   std::string state() {
-    GlobalGraph& G = *g;
-    std::string s = std::string("G ") + (Peek::directed(G) ? "D " : "U ") + U(Peek::hN(G)) + " " + U(Peek::hE(G)) + " " + U(Peek::root(G)) + " ";
-    for (auto& r : Peek::nodes(G)) s += "N " + U(r.first) + " O " + row(r.second.first) + "I " + row(r.second.second);
-    s += "E ";
-    for (auto& e : Peek::edges(G)) s += U(e.first) + ":" + U(e.second.first) + ":" + U(e.second.second) + " ";
+    std::string s = dump(*g);
     for (int k = 0; k < NOBS; ++k) if (obs[k]) {
       Obs& o = *obs[k];
       s += "X " + U(k) + " gN " + vec(k, Peek::gN(o)) + "gE " + vec(k, Peek::gE(o)) + "Ng " + mp(k, Peek::Ng(o)) + "Eg " + mp(k, Peek::Eg(o))
@@ -147,21 +143,62 @@ struct M {
     try { return f(); } catch (Exception&) { return "exc:bpp "; } catch (std::exception&) { return "exc:std "; }
   }
 
+  // a mutator of GlobalGraph, on graph G; t[off] is the operation.  "" = not a mutator.
+  std::string dump(GlobalGraph& G) {
+    std::string s = std::string("G ") + (Peek::directed(G) ? "D " : "U ") + U(Peek::hN(G)) + " " + U(Peek::hE(G)) + " " + U(Peek::root(G)) + " ";
+    for (auto& r : Peek::nodes(G)) s += "N " + U(r.first) + " O " + row(r.second.first) + "I " + row(r.second.second);
+    s += "E ";
+    for (auto& e : Peek::edges(G)) s += U(e.first) + ":" + U(e.second.first) + ":" + U(e.second.second) + " ";
+    return s;
+  }
+  static std::string mutate(GlobalGraph& G, const Toks& t, size_t off) {
+    const std::string& o = t[off];
+    auto a = [&](size_t i) { return (unsigned)toU(t[off + i]); };
+    if (o == "createNode") return U(G.createNode());
+    if (o == "createNodeFromNode") return U(G.createNodeFromNode(a(1)));
+    if (o == "createNodeOnEdge") return U(G.createNodeOnEdge(a(1)));
+    if (o == "createNodeFromEdge") return U(G.createNodeFromEdge(a(1)));
+    if (o == "link") return U(Peek::link(G, a(1), a(2)));
+    if (o == "linkE") { Peek::linkE(G, a(1), a(2), a(3)); return "ok"; }
+    if (o == "unlink") return list(Peek::unlink(G, a(1), a(2)));
+    if (o == "switchNodes") { Peek::switchNodes(G, a(1), a(2)); return "ok"; }
+    if (o == "deleteNode") { G.deleteNode(a(1)); return "ok"; }
+    if (o == "makeDirected") { G.makeDirected(); return "ok"; }
+    if (o == "makeUndirected") { G.makeUndirected(); return "ok"; }
+    if (o == "setRoot") { Peek::setRoot(G, a(1)); return "ok"; }
+    return "";
+  }
+
   std::string graphOp(const Toks& t) {
     GlobalGraph& G = *g;
     const std::string& o = t[0];
-    if (o == "createNode") return U(G.createNode());
-    if (o == "createNodeFromNode") return U(G.createNodeFromNode(toU(t[1])));
-    if (o == "createNodeOnEdge") return U(G.createNodeOnEdge(toU(t[1])));
-    if (o == "createNodeFromEdge") return U(G.createNodeFromEdge(toU(t[1])));
-    if (o == "link") return U(Peek::link(G, toU(t[1]), toU(t[2])));
-    if (o == "linkE") { Peek::linkE(G, toU(t[1]), toU(t[2]), toU(t[3])); return "ok"; }
-    if (o == "unlink") return list(Peek::unlink(G, toU(t[1]), toU(t[2])));
-    if (o == "switchNodes") { Peek::switchNodes(G, toU(t[1]), toU(t[2])); return "ok"; }
-    if (o == "deleteNode") { G.deleteNode(toU(t[1])); return "ok"; }
-    if (o == "makeDirected") { G.makeDirected(); return "ok"; }
-    if (o == "makeUndirected") { G.makeUndirected(); return "ok"; }
-    if (o == "setRoot") { Peek::setRoot(G, toU(t[1])); return "ok"; }
+    { std::string r = mutate(G, t, 0); if (!r.empty()) return r; }
+    if (o == "gcopy") {
+      // a copy of the graph (copy constructor / operator= / clone()) is a graph of its own: a mutator
+      // called on the copy changes neither the original nor the observers of the original
+      std::unique_ptr<GlobalGraph> cp;
+      if (t[1] == "ctor") cp.reset(new GlobalGraph(G));
+      else if (t[1] == "clone") cp.reset(G.clone());
+      else { cp.reset(new GlobalGraph(!Peek::directed(G))); cp->createNode(); *cp = G; }
+      std::string r;
+      try { r = mutate(*cp, t, 2); } catch (Exception&) { r = "exc:bpp"; }
+      return r + " reg " + U(Peek::nObservers(*cp)) + " copy " + dump(*cp);
+    }
+    if (o == "gassign") {
+      // operator= ONTO the observed graph: its content is replaced by a path of n nodes of the other
+      // directedness; its observers stay registered and are told that everything they knew is gone
+      GlobalGraph H(!Peek::directed(G));
+      unsigned n = (unsigned)toU(t[1]);
+      for (unsigned i = 0; i < n; ++i) H.createNode();
+      for (unsigned i = 0; i + 1 < n; ++i) Peek::link(H, i, i + 1);
+      size_t reg = Peek::nObservers(G);
+      G = H;
+      G = *g;   // self-assignment changes nothing
+      return std::string("ok reg ") + U(Peek::nObservers(G) - reg);
+    }
+    // the notifications are public members: every observer forgets the named edges / nodes
+    if (o == "notifyE") { G.notifyDeletedEdges(std::vector<unsigned>{(unsigned)toU(t[1]), (unsigned)toU(t[2])}); return "ok"; }
+    if (o == "notifyN") { G.notifyDeletedNodes(std::vector<unsigned>{(unsigned)toU(t[1]), (unsigned)toU(t[2])}); return "ok"; }
     // ---- queries
     const GlobalGraph& C = G;
     if (o == "qn") {  // everything about one node
